@@ -391,7 +391,65 @@ def stubs():
     return S
 
 
+def server_close_no_channels(ctx, ex, prog):
+    """the same with no channel open at all (an idle connection, or the last channel just closed): nobody to notify, but the
+    connection still has to enter ServerClosing - channel 0's endpoints dropped, CloseOk queued, writes sealed"""
+    st, w = build_steady(prog, [])
+    fs = FrameSym(prog, 'frame')
+    st.pc += [fs.is_method('Connection', 'Close'), fs.chan('Method') == 0]
+    cf = prog.types.fields('amq_protocol::protocol::connection::Close')
+    code = fs.method_field('Connection', 'Close', cf.index('reply_code'), BV16)
+    text = fs.method_field('Connection', 'Close', cf.index('reply_text'), StrSort)
+    f = prog.method('ConnectionState', 'process')
+    n = 0
+    for (s, rv) in ex.run(st, f, [Ref(w.state), Ref(w.inner), fs.value]):
+        n += 1
+        w1 = s.roots['w']
+        if isinstance(rv, Panic) or err_name(prog, rv) != 'Ok':
+            conds = [z3.BoolVal(False)]
+        else:
+            items = new_items(w1)
+            okf = len(items) == 1 and items[0]['kind'] == 'method' and method_of(prog, items[0])[:2] == ('Connection', 'CloseOk')
+            conds = [z3.BoolVal(bool(okf)), sealed_flag(prog, w1), earlier_kept(w1), z3.BoolVal(state_name(prog, w1) == 'ServerClosing')]
+            if state_name(prog, w1) == 'ServerClosing':
+                stv = w1.state.value
+                cl = stv.payloads[stv.disc].fields[0]
+                conds.append(z3.And(cl.fields[cf.index('reply_code')].bv == code, cl.fields[cf.index('reply_text')].s == text))
+            conds.append(z3.BoolVal(w1.slots['ch0']['reply'].senders == 0))
+        m = ctx.decide(f"c08.server-close[no-channels]#{n}", s.pc, z3.And(*conds),
+                       group='server Connection.Close with no channel open: CloseOk queued, buffer sealed, state ServerClosing(code,text), channel 0 endpoints dropped')
+        if m is not None:
+            ctx.report('server-close-no-channels', f"server Connection.Close with no channel open: result {err_name(prog, rv) if not isinstance(rv, Panic) else 'panic'}, state {state_name(prog, w1)}", {'state_after': state_name(prog, w1)},
+                       NO_CHANNELS_TEST, inject_into='src/io_loop/mod.rs', profiles=('dev',), hang_is_violation=True, panic_is_violation=True)
+
+
+NO_CHANNELS_TEST = r"""
+use super::*;
+#[test]
+fn verif_replay_server_close_no_channels() {
+    let mut bad: Vec<String> = Vec::new();
+    let mut io = IoLoop::new(crate::ConnectionTuning::default()).unwrap();
+    io.inner.chan_slots.set_channel_max(10);
+    let (ch0_slot, mut h0) = Channel0Slot::new(4);
+    let mut state = ConnectionState::Steady(ch0_slot);
+    io.inner.outbuf.clear();
+    let close = amq_protocol::protocol::connection::Close { reply_code: 320, reply_text: "CONNECTION_FORCED".into(), class_id: 0, method_id: 0 };
+    let r = state.process(&mut io.inner, AMQPFrame::Method(0, AMQPClass::Connection(amq_protocol::protocol::connection::AMQPMethod::Close(close))));
+    if r.is_err() { bad.push(format!("process={:?}", r)); }
+    match &state { ConnectionState::ServerClosing(c) if c.reply_code == 320 && c.reply_text == "CONNECTION_FORCED" => (), _ => bad.push("state-is-not-ServerClosing(320)".into()) }
+    if !io.inner.are_writes_sealed() { bad.push("not-sealed".into()); }
+    if io.inner.outbuf.len() == 0 { bad.push("no-CloseOk-queued".into()); }
+    // the connection handle learns that the loop is gone: its next request fails instead of being served
+    let (dtx, drx) = std::sync::mpsc::channel();
+    std::thread::spawn(move || { let r = h0.allocate_channel(None).map(|h| h.channel_id()); std::mem::forget(h0); let _ = dtx.send(r.map_err(|e| format!("{:?}", e))); });
+    match drx.recv_timeout(std::time::Duration::from_secs(3)) { Ok(Err(_)) => (), Ok(Ok(id)) => bad.push(format!("open_channel-after-server-close=Ok({})", id)), Err(_) => bad.push("open_channel-after-server-close-HANGS".into()) }
+    if bad.is_empty() { println!("VERIF-REPLAY-OK"); } else { println!("VERIF-REPLAY-VIOLATION server-close-no-channels {}", bad.join(";").replace(' ', "_")); }
+}
+"""
+
+
 def server_close(ctx, ex, prog, viol):
+    server_close_no_channels(ctx, ex, prog)
     n = 0
     # the last configuration has a reply that channel A's caller has not picked up yet (its call is in flight): the close notice must still fit
     # ... and in the very last one the client's own Connection.Close is already queued (writes sealed) when the server's arrives: the
